@@ -56,7 +56,7 @@ enum { K_WFCQ, K_WFQ, K_WFS, K_LFS, K_RCULFS, K_LFQ };
 enum { S_LOCK, S_SINGLE, S_RCU };
 enum { L_INS = 1, L_REM, L_EMPTY, L_SNAP, L_POPALL, L_SPL_DRAIN, L_SPL_APPEND, L_DESTROY };
 enum { CF_REM_OVERLAP_INS = 0, CF_WOULDBLOCK = 1, CF_LAST = 2, CF_SPLICE_OVERLAP = 3, CF_LIN_INCONCLUSIVE = 4, CF_RECYCLED = 5, CF_POPALL_OVERLAP = 6,
-       CF_REM_OVERLAP_REM = 7, CF_SOLO_RAN = 8, CF_SOLO_INFLIGHT = 9, CF_NULL_SEEN = 10, CF_FREED = 11, CF_CROWD = 12 };
+       CF_REM_OVERLAP_REM = 7, CF_SOLO_RAN = 8, CF_SOLO_INFLIGHT = 9, CF_NULL_SEEN = 10, CF_FREED = 11, CF_CROWD = 12, CF_THAWED = 13 };
 #define R_NULL 0L
 #define R_WOULDBLOCK (-2L)
 #define R_NA (-1L)
@@ -320,11 +320,15 @@ static void rcu_out(void) { if (sync_mode == S_RCU) RUNLOCK(); }
 
 /* C17 bookkeeping: an operation issued after the gate runs solo and must neither reach a wait hint nor take more than a bounded number of steps */
 static NS int touches(const struct lin_op *o, long q);
-static long solo_q;
+static long solo_q; static int quiet_mode;
 static NS void solo_begin_q(long q) { solo_q = q; solo_steps0 = ds_my_steps(); solo_yields0 = ds_solo_yields(); }
 static NS void solo_end(const char *what, long r)
 {
 	int me = ds_scen_index();
+	if (solo_mode[me] && quiet_mode && r == R_WOULDBLOCK) {
+		for (int i = 0; i < nhist; i++) if (hist[i].ret == ~0ul && hist[i].thr != me) return;	/* a thread blocked for good inside an operation: no claim */
+		ds_fail("progress: %s on container %ld returned WOULDBLOCK although no other operation is in progress (every other thread has finished its program)", what, solo_q);
+	}
 	if (!solo_mode[me] || !ds_solo_active()) return;
 	ds_flag(CF_SOLO_RAN);
 	if (r == R_WOULDBLOCK) {
@@ -456,7 +460,7 @@ static void do_iter(int q, int v)
 		}
 	}
 	xunlock(q);
-	solo_end("iteration", cnt);
+	solo_end("iteration", complete ? cnt : R_WOULDBLOCK);
 	h_end(h, (long)seq, complete);
 }
 
@@ -521,10 +525,10 @@ static void do_empty(int q)
 	h_end(h, !!r, R_NA);
 }
 
-enum { OP_ENQ, OP_DEQ, OP_SPLICE, OP_ITER, OP_POPALL, OP_EMPTY, OP_GATE, OP_YIELD, OP_BARRIER, OP_MKHELPER, OP_CDEQ, OP_CENQ, OP_DRAIN, OP_BAD };
+enum { OP_ENQ, OP_DEQ, OP_SPLICE, OP_ITER, OP_POPALL, OP_EMPTY, OP_GATE, OP_YIELD, OP_BARRIER, OP_MKHELPER, OP_CDEQ, OP_CENQ, OP_DRAIN, OP_THAW, OP_BAD };
 static NS int fetch(int t, int i, long *a)
 {
-	static const char *names[] = { "enq", "deq", "splice", "iter", "popall", "empty", "gate", "yield", "barrier", "mkhelper", "cdeq", "cenq", "drain" };
+	static const char *names[] = { "enq", "deq", "splice", "iter", "popall", "empty", "gate", "yield", "barrier", "mkhelper", "cdeq", "cenq", "drain", "thaw" };
 	const struct ds_op *o = ds_op(t, i);
 	a[0] = o->a[0]; a[1] = o->a[1]; a[2] = o->a[2];
 	for (int k = 0; k < OP_BAD; k++) if (!strcmp(o->name, names[k])) return k;
@@ -631,6 +635,7 @@ static void run_program(int t)
 		case OP_EMPTY: do_empty(q); break;
 		case OP_GATE: ds_solo_gate(); set_solo(); solo_inflight_class(); break;
 		case OP_YIELD: ds_yield(); break;
+		case OP_THAW: if (ds_solo_thaw()) { quiet_mode = 1; ds_flag(CF_THAWED); } break;
 		/* call_rcu housekeeping by other threads (C17: a thread may be suspended inside it, holding the library's call_rcu mutex, while the solo thread
 		 * dequeues - rculfqueue hands its dummy nodes to call_rcu) */
 		case OP_CDEQ: crowd_rem(1); break;
@@ -722,7 +727,7 @@ static void scenario(void)
 	if (ds_cfg("solo", -1) >= 0) {
 		/* C17: the case ends when the solo thread has finished; suspended threads stay suspended */
 		ds_join(tids[ds_cfg("solo", 1)]);
-		if (!ds_solo_active()) ds_fail("internal: solo thread finished without a freeze");
+		if (!ds_solo_active() && !quiet_mode) ds_fail("internal: solo thread finished without a freeze");
 		ds_done();
 	}
 	for (int t = 1; t < np; t++) ds_join(tids[t]);
